@@ -144,8 +144,9 @@ DEC_PARAMS = dict(data=Bytes(), offset=Int(0, None), size=Opt(Int()))
 # preconditions are proved to cover every (data, offset, size).
 contract(P + 'decode', 'C11', DEC_PARAMS, name='C11/decode',
          raises={DE: []}, reads=DEC['reads'], returns=Obj(P + 'ProtocolDataUnit'),
-         cases=['C11/decode[short]'] + ['C11/decode[%s]' % n for n in PT_NAMES.values()])
+         cases=['C11/decode[short]', 'C11/decode[tiny]'] + ['C11/decode[%s]' % n for n in PT_NAMES.values()])
 contract(P + 'decode', 'C11', DEC_PARAMS, name='C11/decode[short]', requires=['len(data) < offset + 2'], **DEC)
+contract(P + 'decode', 'C11', DEC_PARAMS, name='C11/decode[tiny]', requires=['size is not None and size < 2'], **DEC)
 for pt, nm in PT_NAMES.items():
     contract(P + 'decode', 'C11', DEC_PARAMS, name='C11/decode[%s]' % nm,
              requires=['len(data) >= offset + 2', 'hdr_ptype(data[offset:offset+2]) == %d' % pt], **DEC)
